@@ -74,8 +74,8 @@ CFGS = {
                   RewardAmts="{}", MaxBatches="1", MaxN="6", MaxSeq="4", MaxPk="3", MaxTime="0"),
     # breaker / authorisation: starts halted, every principal tries everything
     "gate_q": dict(Extras='{"wrongsender", "matrix", "direct", "upmon", "demonitor"}', StartHalted="TRUE",
-                   Principals='{"u1", "admin", "mon1", "admin2", "contract", "hook|channel-1|staker", "hook|channel-1|collector"}', Returns='{"exact"}',
-                   MaxN="6", MaxSeq="3", MaxBatches="2", MaxPk="2", TreasuryAddr='"treasury"', RcvKinds='{"self"}', MaxTime="5",
+                   Principals='{"u1", "admin", "mon1", "admin2", "contract", "treasury", "hook|channel-1|staker", "hook|channel-1|collector"}', Returns='{"exact"}',
+                   MaxN="6", MaxSeq="2", MaxBatches="2", MaxPk="2", TreasuryAddr='"treasury"', RcvKinds='{"self"}', MaxTime="5",
                    ResumeScales='{"same", "zerolst", "rewards0"}'),
     # the same with one stake at most: used where the gate is not the property's own subject
     "gates_q": dict(Extras='{"wrongsender", "matrix", "direct"}', StartHalted="TRUE",
